@@ -210,8 +210,16 @@ class C13(Check):
                 out.append(result(HELD, cls=tr, counters=dict(pipelines_compared=1, arrays_compared=n_arr),
                                   nontrivial=bool(cross_o[0].dd.counts.counts.sum() > 0), sample=dict(case=case, P=P, bins=nb)))
                 return out
-            trans = build(tmp, "t", t_tables, t_centres)
-            cross_t, auto_t = measure(trans)
+            try:
+                trans = build(tmp, "t", t_tables, t_centres)
+                cross_t, auto_t = measure(trans)
+            except Exception as e:
+                import traceback
+
+                tb = traceback.extract_tb(e.__traceback__)
+                site = next((f.name for f in reversed(tb) if "/src/yaw" in f.filename), "?")
+                bad(f"{tr}:transformed-run-raises-{type(e).__name__}:{site}", dict(error=str(e)[:200], **info))
+                return out
 
         n_arr = 0
         nontrivial = False
